@@ -668,3 +668,57 @@ package avro
 //@   ensures [C16,C02] tlen() == 1 && tkind(0) == evOUT && ta(0) == tag(w) && tb(0) == uint64(data(w)) && res == ifaceof(te(0), tf(0))
 //@   modifies BH
 //@   emits HDR(w, res)
+
+// ================================================================ file.go: reading object container files (C07, C08)
+
+//@ iface compressionCodec.decompress
+//@   requires this != nil
+//@   ensures [C07,C08,C06] bhframe_unowned()
+//@   modifies BH, type deflate, type snappyCodec
+//@   emits ENC(this, err)
+
+// size of the record struct ReadFile decodes into: out's type, or what it points to
+//@ spec outdesc(out iface) ptr = rkind(typedesc(tag(out))) == 22 ? relem(typedesc(tag(out))) : typedesc(tag(out))
+
+//@ func (Schema).Codec
+//@   ensures [C07,C08,C05] err == nil ==> res != nil && wfc(res) && dsz(res) == rtypesz(outdesc(out)) && 0 <= dsz(res)
+//@   ensures [assume] err == nil ==> res != nil && wfc(res) && dsz(res) == rtypesz(outdesc(out)) && 0 <= dsz(res)
+//@   pure
+
+//@ func (*ReadBuf).Reset
+//@   requires d != nil
+//@   ensures [C07,C10] d.i == 0 && d.buf == data && d.rb != nil
+//@   ensures [assume] base(d.rb.sData) != base(data) || len(data) == 0
+//@   modifies d.i, d.buf, d.rb
+
+//@ func (*ReadBuf).ExtractResourceBank
+//@   requires d != nil
+//@   ensures [C07,C10] res == old(d.rb) && d.rb != nil && d.i == old(d.i) && d.buf == old(d.buf)
+//     the pool never hands out a bank that is still referenced (premise of the bank API), and bank buffers are private
+//@   ensures [assume] d.rb != old(d.rb) && (base(d.rb.sData) != base(d.buf) || len(d.buf) == 0)
+//@   modifies d.rb
+
+//@ func readBytes
+//@   let p0 := inpos()
+//@   requires wfIn()
+//@   ensures [C07,C08,C06] wfIn() && p0 <= inpos()
+//@   ensures [C08] err == io.EOF ==> inpos() == inlen()
+//@   ensures [C08] err == nil || err == io.EOF || err == io.ErrUnexpectedEOF || !wraps(err, io.EOF)
+//@   modifies ghost in.pos, BH
+
+//@ func readFileHeader
+//@   let p0 := inpos()
+//@   requires wfIn()
+//@   ensures [C07,C08,C06] wfIn() && p0 <= inpos()
+//@   ensures [C07] p0 + 4 <= inlen() && !(instream()[p0] == 79 && instream()[p0+1] == 98 && instream()[p0+2] == 106 && instream()[p0+3] == 1) ==> err != nil
+//@   ensures [C07,C08] err == nil ==> p0 + 20 <= inpos() && forall j int :: 0 <= j && j < 16 ==> fh.Sync[j] == instream()[inpos() - 16 + j]
+//@   ensures [C08] err != nil ==> !wraps(err, io.EOF) || inpos() == inlen()
+//@   modifies ghost in.pos, BH, map map[string][]byte
+//@   loop 1 invariant wfIn() && p0 + 4 <= inpos()
+//@   loop 1 decreases inlen() - inpos()
+//@   loop 2 invariant wfIn() && p0 + 4 <= inpos() && 0 <= count && inlen() - inpos() < loopdec(1)
+//@   loop 2 decreases count
+
+//@ func (FileHeader).schema
+//@   ensures [C07] !maphas(fh.Meta, "avro.schema") ==> err != nil
+//@   modifies type Schema, type SchemaObject, type SchemaRecordField, BH
